@@ -46,7 +46,7 @@ def gen(c):
     return p
 
 def run(c):
-    c.mc('MC_Sponge', disabled=('DoCopy', 'DoSqueeze2', 'ReAbsorb'))
+    c.mc_bg('MC_Sponge', disabled=('DoCopy', 'DoSqueeze2', 'ReAbsorb'))
     c.assumptions += ['message/name/customisation VALUES sampled; length classes (mod rate, block count), declared lengths around 32 and 2^29, name lengths around 32 enumerated',
                       'expected digests computed by TLC from spec/AsconModes.tla (Xof, Xofa, Hash, Hasha, XofFixed, CXof), anchored on reference KATs']
     p = gen(c)
